@@ -86,6 +86,27 @@ claim("C11", "E2 differential + E1 model + E6 process",
       "memoized() at every subset of nodes of every small grammar (sampled subsets, doubly memoized nodes for random ones) must leave acceptance, outputs and the full error list identical to the plain grammar; statically typed zero-sized / nested / adjacent / cloned memoized parsers against their plain formulation; five left-recursive shapes with a memoized recursive step on all short inputs must return a ParseResult within 10^7 logical steps in a child process (a crash or stack overflow kills only the child and is reported).",
       MODEL_NOTE + " Known finding D6 (memo key = position + address) is reported as KNOWN-FINDING by signature; for left recursion only termination is judged.", "DESIGN §5 C11")
 
+claim("C12", "E1 model + E2 differential + E6 process + E7 sanitizer",
+      "runtime monitoring: reference-model monitor (the model's reference rule is the unrolling) and real-vs-real differential against the explicit unrolling for generated recursive definitions; handle-juggling family against a hand recogniser; child-process monitor (exit status / signal / RSS / watchdog) for nesting depth on a 512 KiB thread stack; panic-location monitor for a second define(); Miri on a small-depth slice",
+      "Guarded recursive definitions (recursive() and declare/define, single and mutually recursive, 5 reference shapes) exhaustively for small bodies x all small inputs and randomly for larger ones are compared with the reference model at every recursion level and with their explicit unrolling; 11 clone/box/Rc/Either/drop orders of handles; 7 nesting shapes (incl. Pratt prefix chains, Pratt with recursive atoms, memoized recursion, mutual recursion through boxed()) parsed at depths up to 10^6 in child processes on a 512 KiB stack; a second define() must panic naming the caller's site and leave the first definition intact.",
+      MODEL_NOTE + " 'Limited by memory' is shown up to 10^6 levels only; Miri runs without stacker (psm is FFI).", "DESIGN §5 C12")
+claim("C13", "E2 differential + E7 sanitizer",
+      "runtime monitoring: history monitor (k-th result through one parser value vs a freshly built parser) over all short (input, parse|check) histories through 10 wrapper kinds and Cache; thread monitor (results of 2..8 threads sharing Send+Sync parsers vs the sequential reference, start/finish event log through an atomic clock); Miri data-race detector with several scheduler seeds, TSan in the thorough tier",
+      "For generated grammars (recovery, validation, labels, memoization, state, context, recursion) every history of (input, parse|check) steps up to a bound is driven through ONE parser value, consecutive steps through different wrappers (original, clone, &, &&, Box, Rc, Arc, boxed(), Either::Left/Right, a held Rc): acceptance, outputs, full error list, inspector state, probe trace and logical step count of the k-th parse must equal a fresh parser's; Cache::get() at a new input lifetime per step; 2..8 threads share Arc<dyn Parser + Send + Sync> parsers and a static Cache and must each see the sequential results.",
+      "Model-free (real vs real). Schedules are those the runs produce natively, under Miri's seeded scheduler and under TSan; no exhaustive schedule enumeration. Boxed/Recursive are Rc-based, so the thread workload uses statically typed parsers.", "DESIGN §5 C13")
+claim("C14", "E4 text recognisers",
+      "runtime monitoring: reference-recogniser monitor (longest-match recognisers written from the documentation with std char predicates and unicode-ident; anchored regex-automata search invoked directly) over executions of every text parser on all short strings over a hostile alphabet + random Unicode, on &str and &[u8]",
+      "int(r)/digits(r) for r in {2,8,10,16,36}, ascii::ident, unicode::ident, ascii/unicode keyword, whitespace, inline_whitespace, newline, padded: for every string up to the bound and random Unicode strings the matched prefix (length, content, pointer into the input) and whole-input acceptance must equal the documented language's; &[u8] must agree with &str on ASCII text; regex(p) for 12 patterns (incl. look-behind assertions) at every character position must equal an anchored search at that position.",
+      "Trusted: the hand recognisers in harness/src/props/c14.rs; unicode-ident and regex-automata are the same crates chumsky uses (used whole-string / directly), so table errors in those crates are invisible.", "DESIGN §5 C14")
+claim("C19", "E5 drop ledger + E7 sanitizer",
+      "runtime monitoring: live-instance ledger of drop-tracking values created by mappers at every node (read while the ParseResult is alive and after it is dropped) and of drop-tracking tokens on slice and stream inputs; Miri with leak checking (quick) and ASan+LSan (thorough) on the same drivers",
+      "Generated grammars with group([..;N]), tuple groups, collect_exactly::<[_;N]> (repeated and separated_by), Vec/unit repetitions, folds, lookahead, filter/try_map, recovery, memoized x all small inputs, parse and check: while the result is alive the live tracked instances are exactly those reachable from the output (each once); after dropping it none of this parse's values is alive; no instance dropped twice. 11 statically typed grammars over drop-tracked tokens on &[T] (originals stay alive, clones balanced) and Stream (everything balanced once the stream is gone).",
+      "The ledger stores ids, not addresses, so leaks stay visible to Miri/LSan. A panic's aftermath is not judged (C20). Recursive::declare/define cycles are a documented parser-side leak and are kept out of the leak-checked workload.", "DESIGN §5 C19")
+claim("C20", "E6 process + E1 model (step budget) + E7 sanitizer",
+      "runtime monitoring: child-process monitor (exit status, signal, per-case CPU-time hang monitor, wall-clock watchdog, re-run in trace mode to name the case), per-case panic capture, logical step budget in an Inspector judged against the reference model's budget, ParseResult-contract assertions, bounds/char-boundary checks on every reported span and returned slice, step-growth monitor on scaling families; Miri (quick) and ASan (thorough) on the text/byte/grapheme drivers",
+      "Wrapper saturation (every node of every small grammar wrapped in map_err / labelled / as_context / memoized / 6 recovery forms, pairs of wrappers) x all small inputs x EmptyErr/Rich/Cheap/Simple x parse/check; random grammars of the broadest class on arbitrary Unicode (NUL, combining, ZWJ, astral, noncharacters) and all prefixes, on four input kinds; 14+7+2 statically typed text grammars on arbitrary Unicode strings, arbitrary bytes, truncated UTF-8 and Graphemes; 9 scaling families up to 2^17 (quick) / 2^20 (thorough) bytes.",
+      "A hang is decided on logical steps (10^7) or CPU time of a single case (40 s where microseconds are normal), never on wall-clock; the parent's watchdog alone is inconclusive. 'Polynomial' is shown as linear step growth on the listed families only.", "DESIGN §5 C20")
+
 NOT_CLAIMED = {}
 
 
